@@ -13,6 +13,14 @@ CHECKS = {
          'those channels. The model is tied to color.py by running both on all 4096 short literals x 3 case patterns x 3 positions, '
          'sampled 6-digit literals and boundary-biased pairs x 4 operators.'),
    note=BASE_NOTE),
+ 'C17': dict(category='proof',
+   technique='Lean 4 theorems over exact rationals on a hand-written model of call.py/utility.py + full-grid differential correspondence',
+   text=('Theorems for every rational argument: round is within 1/2 of its argument, sends k+1/2 away from zero, fixes integers and is odd; '
+         'ceil/floor satisfy the defining inequalities; increment/decrement/percentage are x+1, x-1, 100x; the unit is kept, percentage '
+         'yields %, a zero result is bare; an unknown function prints name(arg1,...,argn) with the evaluated arguments in order. '
+         'Tied to the code by running model and compiler on the full grid the property names (both tiers) in literal, variable and '
+         'expression form, and on unknown-function calls incl. names that collide with internal attributes.'),
+   note=BASE_NOTE + ' Float evaluation in CPython is compared with the exact model to 1e-9 relative, as the property prescribes.'),
 }
 NOT_APPLICABLE = {p: 'check under construction in this round (see DESIGN.md section 10 build order); not claimed yet' for p in
-  ['C01','C02','C03','C04','C05','C06','C07','C09','C10','C11','C12','C13','C14','C15','C16','C17','C18','C19','C20']}
+  ['C01','C02','C03','C04','C05','C06','C07','C09','C10','C11','C12','C13','C14','C15','C16','C18','C19','C20']}
